@@ -4,6 +4,7 @@
 -/
 import Gts.Model.Sexp
 import Gts.Model.Locator
+import Gts.Spec.Den
 namespace Gts
 
 def encDesc : LocatorDesc → String
@@ -47,6 +48,9 @@ def evalReg (op : String) (args : List Sexp) : Option String :=
       let table := (seq.feats.map encFeature).zip bits
       let d := asLocator (fun _ => ok) (← decBytes? s)
       pure (encRegsOrErr d (d.apply (fun _ f => (table.lookup (encFeature f)).getD false) seq))
+  | "reg.den", [r] => do
+      let d := (← decReg? r).den
+      pure ("[" ++ " ".intercalate (d.map fun p => (if p.2 then "~" else "") ++ toString p.1) ++ "]")
   | "selector.match", [s, f] => do
       pure (boolStr' (selectorMatch (← decBytes? s) (← decFeature? f)))
   | _, _ => none
